@@ -234,6 +234,100 @@ fn describe(label: &str, r1: &Reject, n1: u64, r2: &Reject, n2: u64) -> String {
 }
 
 // ---------------------------------------------------------------------------
+// restart equivalence of rejection loops (C01 / C02 / C12)
+// ---------------------------------------------------------------------------
+
+/// Probes (see `fault::PROBE_NAMES`) that mark "a candidate was rejected and the WHOLE
+/// call starts over", per family.  Only samplers whose rejection restarts from the first
+/// draw of the call qualify (Gamma with shape < 1 draws its boost uniform first; Poisson's
+/// step E loops back inside the call; composite families nest other samplers): there a
+/// fresh call on the rest of the stream is a different experiment.
+fn restart_probes(spec: &DistSpec) -> Option<u128> {
+    let bits = |ids: &[u8]| ids.iter().fold(0u128, |m, i| m | (1u128 << i));
+    match spec.family {
+        Family::Beta => Some(bits(&[18, 19, 21, 23])),
+        // shape >= 1 (Marsaglia-Tsang on a normal); ziggurat wedge rejections of that
+        // normal (4) restart the first draw of the call as well
+        Family::Gamma if spec.p[0] > 1.0 => Some(bits(&[10, 13, 4])),
+        Family::Binomial => Some(bits(&[25, 27, 29, 31, 36])),
+        Family::Hypergeometric => Some(bits(&[55])),
+        Family::StandardNormal | Family::Normal => Some(bits(&[4])),
+        Family::Exp1 | Family::Exp => Some(bits(&[8])),
+        _ => None,
+    }
+}
+
+/// A rejected candidate must leave no trace: if a call that started at stream position p
+/// consumed n words, returned x and took a "rejected, start over" branch, then for some
+/// 0 < j < n a fresh call started at position p + j returns the same bits and stops at the
+/// same position (j = the words eaten by the rejected candidates).  A loop that carries
+/// anything over from a rejected candidate -- a stale draw, a flag, a skipped test on the
+/// retry path -- has no such j.  Deterministic, no statistics.
+/// Returns (calls, calls with a rejection, violation).
+pub fn restart_equivalence(spec: &DistSpec, calls: u64, seed: u64) -> Result<(u64, u64, Option<(String, String)>), String> {
+    let Some(mask_reject) = restart_probes(spec) else { return Ok((0, 0, None)) };
+    let obj = build_caught(spec)?;
+    let obj: &dyn Obj = &*obj;
+    let label = spec.label();
+    let mut rng = SimRng::new(mix(&[seed, 0x2E57]));
+    let mut rejected = 0u64;
+    let _ = rand_distr::verif_hooks::take_probes();
+    for k in 0..calls {
+        if k & 0x3ff == 0 {
+            mark_call(k);
+        }
+        let start = rng.clone();
+        rng.budget = rng.pos + 100_000;
+        let x = match guarded(|| obj.sample(&mut rng)) {
+            Caught::Ok(o) => o,
+            _ => {
+                let _ = rand_distr::verif_hooks::take_probes();
+                return Ok((k, rejected, None)); // panics / budgets are judged elsewhere
+            }
+        };
+        let mask = rand_distr::verif_hooks::take_probes();
+        let n = rng.pos - start.pos;
+        if mask & mask_reject == 0 || n < 2 {
+            continue;
+        }
+        rejected += 1;
+        let mut found = false;
+        for j in 1..n.min(4096) {
+            let mut b = start.clone();
+            for _ in 0..j {
+                b.word();
+            }
+            b.budget = b.pos + 100_000;
+            let y = guarded(|| obj.sample(&mut b));
+            let _ = rand_distr::verif_hooks::take_probes();
+            if let Caught::Ok(y) = y {
+                if y.same_bits(&x) && b.pos == rng.pos {
+                    found = true;
+                    break;
+                }
+            }
+        }
+        if !found {
+            return Ok((
+                k,
+                rejected,
+                Some((
+                    "replica-mismatch(restart)".into(),
+                    format!(
+                        "{label}: call {k} (stream seed {}, position {}) rejected a candidate, consumed {n} words and returned {}; no fresh call started 1..{} words later returns that value at the same final position: the rejection loop carries state from the rejected candidate",
+                        mix(&[seed, 0x2E57]),
+                        start.pos,
+                        x.show(),
+                        n - 1
+                    ),
+                )),
+            ));
+        }
+    }
+    Ok((calls, rejected, None))
+}
+
+// ---------------------------------------------------------------------------
 // continuous (C01)
 // ---------------------------------------------------------------------------
 
@@ -926,6 +1020,24 @@ fn sig_of(spec: &DistSpec, class: &str) -> BTreeMap<String, String> {
     sig
 }
 
+fn restart_stage(res: &mut CaseResult, spec: &DistSpec, ctx: &Ctx, seed: u64, kind: &str, n: u64) {
+    let calls = if ctx.tier == Tier::Thorough { 200_000 } else { 20_000 };
+    match restart_equivalence(spec, calls, seed) {
+        Ok((c, rej, bad)) => {
+            if c > 0 {
+                res.stat_sum("restart_equivalence_calls", c as f64);
+                res.stat_sum("restart_equivalence_calls_with_a_rejection", rej as f64);
+                res.evaluations += c;
+            }
+            if let Some((class, detail)) = bad {
+                let case = LawCase { kind: kind.into(), spec: spec.clone(), n, seed, m: 0 };
+                res.violations.push(Violation { sig: sig_of(spec, &class), class, detail, case: serde_json::to_value(&case).unwrap() });
+            }
+        }
+        Err(e) => res.notes.push(format!("restart equivalence skipped: {e}")),
+    }
+}
+
 fn sig_with_tags(spec: &DistSpec, class: &str, tags: &[String]) -> BTreeMap<String, String> {
     let mut sig = sig_of(spec, class);
     if !tags.is_empty() {
@@ -1018,6 +1130,7 @@ impl Engine for LawEngine {
             Job::Cont(spec, n) => match cont_test(spec, *n, seed, n_central) {
                 Err(e) => res.notes.push(format!("skipped: {e}")),
                 Ok(o) => {
+                    restart_stage(&mut res, spec, ctx, seed, "law-cont", *n);
                     absorb(&mut res, &o);
                     if o.info.edges_dropped_unresolvable * 2 <= o.info.edges {
                         res.keys.push(hash_key(&[&spec.label()]));
@@ -1037,6 +1150,7 @@ impl Engine for LawEngine {
             Job::Disc(spec, n) => match disc_test(spec, *n, seed) {
                 Err(e) => res.notes.push(format!("skipped: {e}")),
                 Ok(o) => {
+                    restart_stage(&mut res, spec, ctx, seed, "law-disc", *n);
                     absorb(&mut res, &o);
                     res.keys.push(hash_key(&[&spec.label()]));
                     res.digest = o.digest;
@@ -1135,6 +1249,13 @@ impl Engine for LawEngine {
         let c: LawCase = serde_json::from_value(case.clone()).map_err(|e| format!("bad replay case: {e}"))?;
         let n_central = if ctx.tier == Tier::Thorough { 1024 } else { 256 };
         println!("replay: {} {} N={} M={} seed={}", c.kind, c.spec.label(), c.n, c.m, c.seed);
+        if matches!(c.kind.as_str(), "law-cont" | "law-disc") {
+            let calls = if ctx.tier == Tier::Thorough { 200_000 } else { 20_000 };
+            if let (_, rej, Some((class, detail))) = restart_equivalence(&c.spec, calls, c.seed)? {
+                println!("replay: restart equivalence ({rej} rejections examined): outcome class={class}: {detail}");
+                return Ok(vec![Violation { sig: sig_of(&c.spec, &class), class, detail, case: case.clone() }]);
+            }
+        }
         let o = match c.kind.as_str() {
             "law-cont" => cont_test(&c.spec, c.n, c.seed, n_central)?,
             "law-disc" => disc_test(&c.spec, c.n, c.seed)?,
